@@ -3,7 +3,7 @@
    theorems). *)
 From stdpp Require Import gmap.
 From LV Require Import Circuit.Model Circuit.Spec Circuit.Discipline Circuit.Proofs Circuit.RestartProofs
-  Circuit.RollbackProofs Circuit.DisciplineProofs Circuit.Props.
+  Circuit.RollbackProofs Circuit.DisciplineProofs Circuit.Identity Circuit.IdentityProofs Circuit.Props.
 Local Open Scope N_scope.
 
 Definition k1 : key := (1, 0).
@@ -107,6 +107,44 @@ Example restart_exact_ex :
   d_ks d' !! (2,0) = Some (1,0) /\ d_ks d' !! (2,1) = None /\ d_ks d' !! (2,2) = None /\
   classify (found_obj m' (1,0)) = ADrop /\ classify (found_obj m' (1,1)) = AFail /\
   classify (found_obj m' (1,2)) = AFail /\ size (pending m') = 3%nat.
+Proof. vm_compute. repeat split; reflexivity. Qed.
+
+(* C07_restart_identity: a CONFIRMED ZERO-CONF channel - its link (and every keystone)
+   uses the alias 160, the record also carries the confirmed on-chain scid 7 - next to
+   a regular channel 9; one keystone committed (index 0 < NextLocalHtlcIndex = 1), two
+   uncommitted.  The hypotheses hold and the restart rolls back (160,1), (160,2). *)
+Definition disk_id : disk :=
+  Disk (<[(1,0):=5]> (<[(1,1):=6]> (<[(1,2):=7]> ∅)))
+       (<[(160,0):=(1,0)]> (<[(160,1):=(1,1)]> (<[(160,2):=(1,2)]> ∅))).
+Definition recs_id : list chanrec :=
+  [ChanRec 160 true true 7 false (Some 1) 0; ChanRec 9 false false 0 false None 0].
+Definition rc_id : rconf := rc_of_records [] [] recs_id.
+
+Example restart_identity_hyp :
+  contiguous_on_disk rc_id disk_id /\ single_keystone (d_ks disk_id) /\
+  (exists r, r ∈ recs_id /\ cr_pending r = false /\ link_scid r <> 0 /\ cr_zeroconf r = true /\
+     cr_confirmed r <> 0 /\ cr_confirmed r <> link_scid r).
+Proof.
+  split; [|split].
+  - intros a ch s Ha Hs j k Hl Hle i Hi.
+    apply elem_of_cons in Ha as [-> | Ha]; [|apply elem_of_list_singleton in Ha; subst a];
+      vm_compute in Hs; injection Hs as <- <-;
+      destruct Hl as (Hks & _); cbn in Hks; lookups; simplify_eq; try lia.
+    + assert (i = 1) as -> by lia. exists (1, 1). vm_compute. repeat split; try reflexivity; discriminate.
+    + assert (i = 1 \/ i = 2) as [-> | ->] by lia.
+      * exists (1, 1). vm_compute. repeat split; try reflexivity; discriminate.
+      * exists (1, 2). vm_compute. repeat split; try reflexivity; discriminate.
+  - intros o1' o2' k H1 H2. cbn in H1, H2. lookups; simplify_eq; reflexivity.
+  - exists (ChanRec 160 true true 7 false (Some 1) 0). repeat split; try discriminate.
+    apply elem_of_list_here.
+Qed.
+
+Example restart_identity_ex :
+  let '(m', d') := restart rc_id disk_id 0 in
+  opened m' !! (160,0) = Some (inr (1,0)) /\ opened m' !! (160,1) = None /\ opened m' !! (160,2) = None /\
+  opened m' !! (7,0) = None /\ d_ks d' !! (160,1) = None /\ d_ks d' !! (160,2) = None /\
+  classify (found_obj m' (1,0)) = ADrop /\ classify (found_obj m' (1,1)) = AFail /\
+  classify (found_obj m' (1,2)) = AFail.
 Proof. vm_compute. repeat split; reflexivity. Qed.
 
 (* C07_rollback, DeleteCircuits clause: wf_out holds in a state with an open and
